@@ -10,7 +10,8 @@ Fails loudly when an anchor pattern is missing.
 import json, os, re, sys, glob
 
 REPO = '/repo'
-OUT = '/verif/.cache/overlay'
+OUT = os.environ.get('VERIF_OVERLAY_OUT', '/verif/.cache/overlay')
+OVERRIDE = os.environ.get('VERIF_SRC_OVERRIDE', '')  # tree with mutated copies (mutation testing)
 SHIM = '/verif/engine/coop/shim'
 MOD = 'github.com/lavanet/lava/v5/utils/verifshim'
 
@@ -18,83 +19,29 @@ def die(msg):
     print('overlaygen: ' + msg, file=sys.stderr)
     sys.exit(1)
 
-def rewrite_imports(src, path, mapping):
-    """mapping: import path -> (alias, new path)"""
-    m = re.search(r'^import \((.*?)^\)', src, re.S | re.M)
-    if not m:
-        return src, 0
-    block = m.group(1)
-    n = 0
-    for old, (alias, new) in mapping.items():
-        pat = re.compile(r'^(\s*)"%s"\s*$' % re.escape(old), re.M)
-        block, k = pat.subn(r'\1%s "%s"' % (alias, new), block)
-        n += k
-    return src[:m.start(1)] + block + src[m.end(1):], n
-
-def rewrite_go_statements(src, path):
-    """`go f(args)` / `go func(...){...}(args)` -> coop.Go(func() { f(args) }).
-    Arguments are evaluated when the spawned thread first runs; the harnesses spawn from states where the
-    arguments are not mutated in between (stated in DESIGN.md)."""
-    out = []
-    i = 0
-    n = 0
-    pat = re.compile(r'(?m)^(\s*)(defer func\(\) \{ )?go (func\(|[A-Za-z_][A-Za-z0-9_.]*\()')
-    while True:
-        m = pat.search(src, i)
-        if not m:
-            out.append(src[i:])
-            break
-        if m.group(2):
-            # `defer func() { go x(...) }()` one-liner
-            start = m.start(3) - 3
-        else:
-            start = m.start(3) - 3
-        out.append(src[i:start])
-        # find the end of the call expression: balance parens/braces from m.start(3)
-        j = m.start(3)
-        depth_p = depth_b = 0
-        in_str = None
-        seen_call_end = False
-        k = j
-        while k < len(src):
-            c = src[k]
-            if in_str:
-                if c == '\\' and in_str != '`':
-                    k += 2
-                    continue
-                if c == in_str:
-                    in_str = None
-            elif c in '"`\'':
-                in_str = c
-            elif c == '(':
-                depth_p += 1
-            elif c == ')':
-                depth_p -= 1
-                if depth_p == 0 and depth_b == 0:
-                    # end of a call; for func literals the first balanced paren is the parameter list,
-                    # the call ends after the body's closing brace and the argument list
-                    if src[j:j+5] == 'func(':
-                        rest = src[k+1:]
-                        if re.match(r'\s*(\{|[A-Za-z_*\[\]. ]*\{)', rest) and not seen_call_end:
-                            seen_call_end = True  # parameter list done, body follows
-                        elif seen_call_end and depth_b == 0:
-                            k += 1
-                            break
-                    else:
-                        k += 1
-                        break
-            elif c == '{':
-                depth_b += 1
-            elif c == '}':
-                depth_b -= 1
-            k += 1
-        expr = src[j:k]
-        out.append('coop.Go(func() { ' + expr + ' })')
-        n += 1
-        i = k
-    return ''.join(out), n
+def gorewrite(src_path, dst_path, imports, gostmt=None):
+    """runs tools/gorewrite (go/parser based); returns (imports rewritten, go statements rewritten)"""
+    import subprocess
+    exe = '/verif/bin/gorewrite'
+    args = [exe, '-in', src_path, '-out', dst_path]
+    for old, (alias, new) in imports.items():
+        args += ['-import', '%s=%s:%s' % (old, alias, new)]
+    if gostmt:
+        args += ['-gostmt', gostmt]
+    r = subprocess.run(args, capture_output=True, text=True)
+    if r.returncode != 0:
+        die('gorewrite failed on %s: %s' % (src_path, r.stderr))
+    if 'nested go statements' in r.stderr:
+        # second pass on the output handles the inner statements
+        r2 = subprocess.run([exe, '-in', dst_path, '-out', dst_path, '-gostmt', gostmt], capture_output=True, text=True)
+        if r2.returncode != 0 or 'nested' in r2.stderr:
+            die('gorewrite nested pass failed on %s: %s' % (src_path, r2.stderr))
+    a, b = r.stdout.split()
+    return int(a), int(b)
 
 def gen_coop():
+    import subprocess
+    subprocess.run('cd /verif/tools/gorewrite && GOFLAGS= GO111MODULE=off go build -o /verif/bin/gorewrite .', shell=True, check=True)
     out = os.path.join(OUT, 'coop')
     os.makedirs(out, exist_ok=True)
     replace = {}
@@ -110,23 +57,23 @@ def gen_coop():
         if not files:
             die('no files in ' + pkg)
         for f in files:
-            src = open(f).read()
-            new, n = rewrite_imports(src, f, mapping)
-            gon = 0
-            if re.search(r'(?m)^\s*(defer func\(\) \{ )?go (func\(|[A-Za-z_])', new):
-                new, gon = rewrite_go_statements(new, f)
-                if gon:
-                    # add the coop import
-                    new = new.replace('import (', 'import (\n\tcoop "%s/coop"' % MOD, 1)
+            dst = os.path.join(out, pkg.replace('/', '_') + '__' + os.path.basename(f))
+            srcf = f
+            if OVERRIDE and os.path.exists(os.path.join(OVERRIDE, os.path.relpath(f, REPO))):
+                srcf = os.path.join(OVERRIDE, os.path.relpath(f, REPO))
+            n, gon = gorewrite(srcf, dst, mapping, MOD + '/coop')
+            new = open(dst).read()
             if os.path.basename(f) == 'single_provider_session.go':
                 new, k = re.subn(r'TRY_LOCK_ATTEMPTS = 30', 'TRY_LOCK_ATTEMPTS = 2', new)
                 if k != 1:
                     die('anchor TRY_LOCK_ATTEMPTS = 30 not found in ' + f)
-            if n or gon or new != src:
-                dst = os.path.join(out, pkg.replace('/', '_') + '__' + os.path.basename(f))
                 open(dst, 'w').write(new)
+                n += 1
+            if n or gon:
                 replace[f] = dst
                 total += n
+            else:
+                os.remove(dst)
     if total == 0:
         die('no import was rewritten')
     for virt, shim in [('coop/coop.go', 'coop.go.txt'), ('sync/sync.go', 'sync.go.txt'),
